@@ -17,10 +17,12 @@ RULE = ("real adaptive runs of the three strategies (dimension-wise, extend-spli
         "on the returned tuple. distinct = digest of (strategy, limits, number of evaluations); non-trivial = run with >=2 "
         "evaluations, or a limit already met at the first evaluation")
 RULE += (" " + 'Integrand output scales 1e-9..1e3; limits that TIE with an attained point count.')
+RULE += (" 40% of the dimension-wise / extend-split runs are followed by continue_adaptive_refinement with other limits (tighter / looser tolerance, more points, limits already met, minimum only); the stop rule is judged per call segment with the limits of that call.")
 RULE += (" A fifth of the observed runs are the SECOND run on the same strategy object (an earlier run with other limits came first).")
 REQUIRED = ["stop_rule_last", "stop_rule_not_before", "one_refine_between_evals", "array_lengths", "arrays_match_events",
             "points_monotone", "nonnegative_finite", "error_formula", "point_count_is_distinct_evaluations",
-            "stopped_at_first_evaluation", "stopped_by_tolerance_midrun", "stopped_by_max"]
+            "stopped_at_first_evaluation", "stopped_by_tolerance_midrun", "stopped_by_max",
+            "continued_stop_rule_last", "continued_stop_rule_not_before"]
 MIN_NONTRIVIAL = {"quick": 150, "thorough": 2000}
 CHUNK = {"quick": 12, "thorough": 60}
 SHARD_TIMEOUT = {"quick": 1200, "thorough": 7200}
@@ -163,6 +165,67 @@ def run_once(strategy, cfg, comps, reference, norm, tol, min_ev, max_ev, prior=N
     return c, f, obs, r
 
 
+def continued_segment(res, rng, c, f, obs, strategy, reference, norm, ctx, oscale):
+    """The public continue_adaptive_refinement(tol, max_evaluations, min_evaluations) is a run of the same driver with its OWN limits:
+    the stop rule is judged on the events of the second segment with the limits of the second call."""
+    if rng.random() >= 0.4:
+        return 0
+    n1 = len(obs.events)
+    ev1 = [e for e in obs.events if e[0] == "EVAL"]
+    if not ev1:
+        return 0
+    last_err, last_pts = float(ev1[-1][1]), int(ev1[-1][3])
+    errs = sorted(set(float(e[1]) for e in ev1 if float(e[1]) > 0))
+    mode = rng.choice(["tighter", "looser", "more_points", "already_met", "min_only"])
+    tol2, min2, max2 = -1.0, 1, last_pts + rng.choice([0, 10, 60, 150])
+    if mode == "tighter":
+        tol2 = last_err * rng.choice([0.5, 0.1, 0.9]) if last_err > 0 else 0.0
+    elif mode == "looser":
+        tol2 = (errs[-1] * 2 if errs else 10.0)
+    elif mode == "already_met":
+        tol2, max2 = 1e300, last_pts + 100
+    elif mode == "min_only":
+        tol2, min2 = 1e300, last_pts + rng.choice([1, 20, 80])
+    with contextlib.redirect_stdout(io.StringIO()):
+        try:
+            r2 = c.continue_adaptive_refinement(tol=tol2, max_evaluations=max2, min_evaluations=min2)
+        except hooks.StopHistory:
+            res.note("continued_segment_ended_by_harness_guard")
+            return 0
+    seg = obs.events[n1:]
+    ev = [e for e in seg if e[0] == "EVAL"]
+    n = len(ev)
+    ctx2 = dict(ctx, second_call={"mode": mode, "tol": tol2, "min": min2, "max": max2}, segment_errors=[float(e[1]) for e in ev][:10],
+                segment_points=[int(e[3]) for e in ev][:10])
+
+    def stop(e):
+        return (e[1] <= tol2 and e[3] >= min2) or (e[3] > max2)
+    kinds = [e[0] for e in seg]
+    ok_alt = bool(kinds) and kinds[0] == "EVAL" and kinds[-1] == "EVAL" and all(kinds[i] != kinds[i + 1] for i in range(len(kinds) - 1))
+    res.check("continued_event_order", ok_alt, "C13_continued_event_order", "continued run: events are not EVAL (REFINE EVAL)*: %s" % kinds[:20], ctx2)
+    if n:
+        res.check("continued_stop_rule_last", stop(ev[-1]), "C13_continued_stopped_without_condition",
+                  "continue_adaptive_refinement(tol=%g, min=%d, max=%d) returned after %d evaluations although neither stop condition of THIS call "
+                  "holds (error %s, points %s)" % (tol2, min2, max2, n, ev[-1][1], ev[-1][3]), ctx2)
+        early = [i for i in range(n - 1) if stop(ev[i])]
+        res.check("continued_stop_rule_not_before", not early, "C13_continued_refined_after_stop_condition",
+                  "continue_adaptive_refinement(tol=%g, min=%d, max=%d): the stop condition of this call already held at its evaluation(s) %s "
+                  "of %d but it refined further" % (tol2, min2, max2, early[:4], n), ctx2)
+        pts_all = [int(e[3]) for e in obs.events if e[0] == "EVAL"]
+        res.check("points_monotone", all(pts_all[i] <= pts_all[i + 1] for i in range(len(pts_all) - 1)), "C13_points_decrease",
+                  "point counts decrease over the continued run: %s" % pts_all[-20:], ctx2)
+        res.check("arrays_match_events", np.array_equal(np.asarray(r2[3], dtype=float), ev[-1][5]), "C13_result_differs_from_last_evaluation",
+                  "continued run: returned result differs from the result at the last evaluation", ctx2)
+        res.check("array_lengths", len(r2[5]) == len(r2[6]) == len(r2[7]), "C13_array_lengths",
+                  "continued run: history arrays have different lengths %d/%d/%d" % (len(r2[5]), len(r2[6]), len(r2[7])), ctx2)
+        for i, e in enumerate(ev):
+            total, since = e[4]
+            res.check("point_count_is_distinct_evaluations", int(e[3]) == total, "C13_point_count:continued:" + strategy,
+                      "continued run, evaluation %d reports %d points but %d distinct points reached the integrand" % (i, e[3], total), ctx2)
+    res.count("continued_segments")
+    return n
+
+
 def run_case(case, res):
     rng = random.Random(case["seed"])
     tier = case.get("tier", "quick")
@@ -283,7 +346,8 @@ def run_case(case, res):
         res.check("point_count_is_distinct_evaluations", int(e[3]) == total, sig,
                   "evaluation %d reports %d points but %d distinct points reached the integrand (%d of them since the first "
                   "evaluation started, %d during initialisation)" % (i, e[3], total, since, obs.pre_init), ctx)
-    res.hash = digest([strategy, tol, min_ev, max_ev, str(norm), refkind, n, pts[:6]])
+    n2 = continued_segment(res, rng, c, f, obs, strategy, reference, norm, ctx, oscale) if strategy != "cell" else 0
+    res.hash = digest([strategy, tol, min_ev, max_ev, str(norm), refkind, n, pts[:6], n2])
     res.nontrivial = n >= 2 or (n == 1)
     res.states.add(digest([strategy, n]))
     res.sample = dict(ctx, n_evaluations=n, events=kinds[:12])
